@@ -18,7 +18,7 @@ type ShallowStorage struct {
 // SetShallow save the shallows in the shallow file in the .git folder as one
 // commit per line represented by 40-byte hexadecimal object terminated by a
 // newline.
-func (s *ShallowStorage) SetShallow(commits []plumbing.Hash) error {
+func (s *ShallowStorage) SetShallow(commits []plumbing.Hash) (err error) {
 	f, err := s.dir.ShallowReplacer()
 	if err != nil {
 		return err
